@@ -131,7 +131,9 @@ def _is_lazy_memo(fn, node, attr, init_attrs, params):
             guarded = True
     if not guarded:
         return False
-    used = {n.id for n in ast.walk(node.value) if isinstance(n, ast.Name)}
+    # everything the value is computed from, through local assignments (handler = latex_walker.x();
+    # fn = getattr(handler, ..); value = fn(..) depends on the parameter latex_walker)
+    used = _flows_into(fn, node.value)
     if used & set(params):
         return False
     return True
